@@ -60,6 +60,7 @@ type regCall struct {
 	subs   []int64  // version or -1 for nil state
 	subIDs []string // channel the sub-state belongs to ("?" if nil)
 	at     int
+	failed bool // refused by the adjudicator (scenario.regFail)
 }
 type pubRec struct {
 	ch        string
@@ -82,6 +83,7 @@ type world struct {
 	stops     []stopRec
 	starts    []stopRec // re-starts of a sub-channel's watching (sequential histories only)
 	relayed   map[string][]string
+	regFail   int
 }
 
 func (w *world) tick() { w.clock++ }
@@ -107,6 +109,11 @@ func (w *world) Register(_ context.Context, req channel.AdjudicatorReq, subs []c
 			r.subs = append(r.subs, int64(s.State.Version))
 			r.subIDs = append(r.subIDs, w.names[s.State.ID])
 		}
+	}
+	if w.regFail > 0 && len(w.regs)+1 == w.regFail {
+		r.failed = true
+		w.regs = append(w.regs, r)
+		return fmt.Errorf("register: refused by the adjudicator (scripted fault)")
 	}
 	w.regs = append(w.regs, r)
 	return nil
@@ -146,6 +153,9 @@ type scenario struct {
 	// lag: the client does not read its event streams until the chain program has ended (more
 	// events than the watcher buffers for it are pending by then)
 	lag bool
+	// regFail: the k-th Register call is refused by the adjudicator (0: none); a refused call
+	// registered nothing, the obligation to refute stays in force for the next trigger
+	regFail int
 }
 
 // step of a sequential history: Kind in {pub, stop, reg, prog, conc}
@@ -171,7 +181,7 @@ var table = map[string]scenario{}
 
 func exec(t *testing.T, ssc schedrun.Scenario, o vsched.Options) (*vsched.Sched, any) {
 	sc := lookup(ssc.Name)
-	w := &world{subs: map[channel.ID]*fakeSub{}, names: map[channel.ID]string{}, relayed: map[string][]string{}}
+	w := &world{subs: map[channel.ID]*fakeSub{}, names: map[channel.ID]string{}, relayed: map[string][]string{}, regFail: sc.regFail}
 	s := vsched.Run(t, o, func() {
 		parts := []map[wallet.BackendID]wallet.Address{fx.Addr(0), fx.Addr(1)}
 		mk := func(nonce int64, ledger bool) *channel.Params {
@@ -461,7 +471,7 @@ func (w *world) check(sc scenario) []verdict {
 		ve := re.Version()
 		maxReg := int64(-1) // newest version of d.ch the watcher itself registered before this delivery
 		for _, r := range w.regs {
-			if r.at < d.at {
+			if r.at < d.at && !r.failed {
 				if d.ch == "P" {
 					maxReg = max(maxReg, int64(r.parent))
 				} else {
@@ -657,7 +667,7 @@ func digest(_ schedrun.Scenario, s *vsched.Sched, o any) string {
 	sort.Strings(rel)
 	var regs []string
 	for _, r := range w.regs {
-		regs = append(regs, fmt.Sprintf("%d%v", r.parent, r.subs))
+		regs = append(regs, fmt.Sprintf("%d%v%v", r.parent, r.subs, r.failed))
 	}
 	var st []string
 	for _, x := range w.stops {
@@ -686,6 +696,7 @@ func programs(thorough bool) (cprogs [][]cop, eprogs [][]eop, cprogs2 [][]cop, e
 		{stop("P"), pub("P", 1)},
 		{stop("S"), pub("P", 1)},
 		{pub("S", 1), stop("S"), pub("P", 1)},
+		{pub("P", 1), pub("P", 2), pub("P", 3)}, // more states than the watcher's internal signals buffer while a Register call is pending
 	}
 	reg := func(ch string, v uint64) eop { return eop{ch, "reg", v} }
 	eprogs = [][]eop{
@@ -757,6 +768,22 @@ func scenarios(res *report.Result) []schedrun.Scenario {
 			ks = append(ks, st.String())
 		}
 		n := fmt.Sprintf("script/p0=%d/%s", sc.p0, strings.Join(ks, ","))
+		table[n] = sc
+		out = append(out, schedrun.Scenario{Name: n, Mode: explore.Delay, Bound: 0, MaxSteps: 40000, Weight: 1})
+	}
+	// a refused Register call: every sequential history up to length 3 (thorough: 4) once more with
+	// the first Register call failing
+	failLen := 3
+	if res.Thorough() {
+		failLen = 4
+	}
+	for _, sc := range scripts(failLen) {
+		var ks []string
+		for _, st := range sc.script {
+			ks = append(ks, st.String())
+		}
+		sc.regFail = 1
+		n := fmt.Sprintf("script/p0=%d/%s/fail1", sc.p0, strings.Join(ks, ","))
 		table[n] = sc
 		out = append(out, schedrun.Scenario{Name: n, Mode: explore.Delay, Bound: 0, MaxSteps: 40000, Weight: 1})
 	}
